@@ -499,7 +499,10 @@ def impl_abnormal(res):
     return res['timeout'] is False and (res['status'] not in (0, 1, 64, 65, 70) or bool(PANIC_RX.search(res['stderr'])))
 
 
-def compare_run(model_fields, res, first_runtime_only=True):
+CLOCK_RX = re.compile(rb'1\.\d{3,}e\+09')
+
+
+def compare_run(model_fields, res, first_runtime_only=True, mask_clock=False):
     """model_fields: [status, events, stderr-items]; res: gorunner result.
     Returns None if they agree on the projected observables, else a reason string."""
     mstatus, mevents, mitems = (model_fields + ['', '', ''])[:3]
@@ -518,6 +521,9 @@ def compare_run(model_fields, res, first_runtime_only=True):
     if int(mstatus) != res['status']:
         return 'status: model %s, implementation %s' % (mstatus, res['status'])
     mo = model_stdout(mevents)
+    if mask_clock:
+        mo = CLOCK_RX.sub(b'<clock>', mo)
+        res = dict(res, stdout=CLOCK_RX.sub(b'<clock>', res['stdout']))
     if mo != res['stdout']:
         return 'stdout differs: model %r, implementation %r' % (mo[-300:], res['stdout'][-300:])
     err = res['stderr'].decode('utf-8', errors='replace')
